@@ -171,4 +171,166 @@ theorem dqTri_spec (q dp : List Nat) (k qh : Nat) (hq : Limbs q) (hdp : Limbs dp
         obtain ⟨a1, a2, a3⟩ := ih2 res h
         exact ⟨a1, by rw [eA]; omega, a3⟩
 
+/-! ### "Compensate for ignored dividend and divisor tails" (sb_div_q.c:258-297) -/
+
+theorem sub_1_val (l : List Nat) (v : Nat) (hl : Limbs l) (hne : 0 < l.length) (hv : v < B) :
+    val (sub_1 l v).1 + v = val l + B ^ l.length * (sub_1 l v).2 ∧ (sub_1 l v).2 ≤ 1 ∧
+    Limbs (sub_1 l v).1 ∧ (sub_1 l v).1.length = l.length := by
+  match l, hl, hne with
+  | x :: xs, hl, _ => exact sub_1_val' x xs v hl hv
+
+/-- what the loop sb_div_q.c:283-296 subtracts in the iterations i < cnt -/
+def tailSum (q dp0 : List Nat) : Nat → Nat
+  | 0 => 0
+  | i + 1 => val q * (B ^ i * dp0.getD i 0) + tailSum q dp0 i
+
+theorem tailSum_eq (q dp0 : List Nat) : ∀ s, s ≤ dp0.length → tailSum q dp0 s = val q * val (dp0.take s)
+  | 0, _ => by simp [tailSum]
+  | s + 1, h => by
+    have ih := tailSum_eq q dp0 s (by omega)
+    have hv := val_take_top (dp0.take (s + 1)) s (by rw [List.length_take]; omega)
+    have e1 : (dp0.take (s + 1)).take s = dp0.take s := by rw [List.take_take]; congr 1; omega
+    have e2 : (dp0.take (s + 1)).getD s 0 = dp0.getD s 0 := by
+      simp [List.getD_eq_getElem?_getD]
+    rw [e1, e2] at hv
+    rw [tailSum, ih, ← hv]; ring
+
+theorem dqTail_succ (q dp0 : List Nat) (qh i : Nat) (mem : List Nat) (x : Nat) :
+    dqTail q dp0 qh (i + 1) mem x =
+      if (sub_1 (mem.drop (q.length + i)) (submul_1 ((mem.drop i).take q.length) q (dp0.getD i 0)).2).2 ≠ 0 then
+        if x = 0 then ((sub_1 q 1).1, qh)
+        else dqTail q dp0 qh i
+          (mem.take i ++ (submul_1 ((mem.drop i).take q.length) q (dp0.getD i 0)).1 ++
+            (sub_1 (mem.drop (q.length + i)) (submul_1 ((mem.drop i).take q.length) q (dp0.getD i 0)).2).1) (x - 1)
+      else dqTail q dp0 qh i
+          (mem.take i ++ (submul_1 ((mem.drop i).take q.length) q (dp0.getD i 0)).1 ++
+            (sub_1 (mem.drop (q.length + i)) (submul_1 ((mem.drop i).take q.length) q (dp0.getD i 0)).2).1) x := rfl
+
+/-- one iteration of the tail loop, value level: mem' + q·d_i·B^i = mem + B^len·borrow -/
+theorem tail_step (q mem : List Nat) (i v : Nat) (hq : Limbs q) (hm : Limbs mem) (hi : i + q.length < mem.length)
+    (hv : v < B) :
+    let rc := submul_1 ((mem.drop i).take q.length) q v
+    let sb := sub_1 (mem.drop (q.length + i)) rc.2
+    let mem' := mem.take i ++ rc.1 ++ sb.1
+    Limbs mem' ∧ mem'.length = mem.length ∧ sb.2 ≤ 1 ∧
+    val mem' + val q * (B ^ i * v) = val mem + B ^ mem.length * sb.2 := by
+  have hB := B_pos
+  have hs1 : Limbs ((mem.drop i).take q.length) := Limbs_take (Limbs_drop hm _) _
+  have hs1l : ((mem.drop i).take q.length).length = q.length := by
+    rw [List.length_take, List.length_drop]; omega
+  obtain ⟨h1, hc, hrl, hrn⟩ := submul1C_val v hv ((mem.drop i).take q.length) q 0 hs1 hq hs1l hB
+  change val (submul_1 _ _ _).1 + _ + 0 = _ + _ * (submul_1 _ _ _).2 at h1
+  change (submul_1 _ _ _).2 < B at hc
+  change Limbs (submul_1 _ _ _).1 at hrl
+  change (submul_1 _ _ _).1.length = _ at hrn
+  generalize submul_1 ((mem.drop i).take q.length) q v = rc at *
+  obtain ⟨seg, cy⟩ := rc
+  simp only at h1 hc hrl hrn ⊢
+  have hrest : Limbs (mem.drop (q.length + i)) := Limbs_drop hm _
+  have hrestl : (mem.drop (q.length + i)).length = mem.length - (q.length + i) := List.length_drop
+  obtain ⟨s1, s2, s3, s4⟩ := sub_1_val (mem.drop (q.length + i)) cy hrest (by rw [hrestl]; omega) hc
+  generalize sub_1 (mem.drop (q.length + i)) cy = sb at *
+  obtain ⟨rs, b⟩ := sb
+  simp only at s1 s2 s3 s4 ⊢
+  have htl : (mem.take i).length = i := by rw [List.length_take]; omega
+  -- value of mem in three pieces
+  have hv1 := val_take_drop mem i (by omega)
+  have hv2 := val_take_drop (mem.drop i) q.length (by rw [List.length_drop]; omega)
+  have hdd : (mem.drop i).drop q.length = mem.drop (q.length + i) := by rw [List.drop_drop, Nat.add_comm]
+  rw [hdd] at hv2
+  have hpow : B ^ mem.length = B ^ i * (B ^ q.length * B ^ (mem.length - (q.length + i))) := by
+    rw [← pow_add, ← pow_add]; congr 1; omega
+  refine ⟨Limbs_append.mpr ⟨Limbs_append.mpr ⟨Limbs_take hm _, hrl⟩, s3⟩, ?_, s2, ?_⟩
+  · rw [List.length_append, List.length_append, htl, hrn, s4, hrestl]; omega
+  · rw [val_append, val_append, List.length_append, htl, hrn, hv1, hv2, hpow, hrestl] at *
+    rw [pow_add]
+    have e1 : B ^ i * (val seg + val q * v + 0) = B ^ i * (val ((mem.drop i).take q.length) + B ^ q.length * cy) := by
+      rw [h1]
+    have e2 : B ^ i * B ^ q.length * (val rs + cy)
+        = B ^ i * B ^ q.length * (val (mem.drop (q.length + i)) + B ^ (mem.length - (q.length + i)) * b) := by rw [s1]
+    nlinarith
+
+/-- the tail loop sb_div_q.c:283-296 decides the sign: it returns the quotient unchanged iff the remainder is at least
+    what it subtracts, and the decremented quotient otherwise -/
+theorem dqTail_spec (q dp0 : List Nat) (qh M : Nat) (hq : Limbs q) (hdp0 : Limbs dp0) (cnt : Nat) :
+    ∀ (mem : List Nat) (x : Nat), cnt + q.length ≤ M → Limbs mem → mem.length = M →
+      (tailSum q dp0 cnt ≤ val mem + B ^ M * x → dqTail q dp0 qh cnt mem x = (q, qh)) ∧
+      (val mem + B ^ M * x < tailSum q dp0 cnt → dqTail q dp0 qh cnt mem x = ((sub_1 q 1).1, qh) ∧ 0 < val q) := by
+  induction cnt with
+  | zero =>
+    intro mem x _ _ _
+    exact ⟨fun _ => rfl, fun h => by simp [tailSum] at h⟩
+  | succ i ih =>
+    intro mem x hc hm hml
+    have hv : dp0.getD i 0 < B := limb_getD hdp0 i
+    obtain ⟨t1, t2, t3, t4⟩ := tail_step q mem i (dp0.getD i 0) hq hm (by omega) hv
+    rw [dqTail_succ]
+    generalize submul_1 ((mem.drop i).take q.length) q (dp0.getD i 0) = rc at *
+    generalize sub_1 (mem.drop (q.length + i)) rc.2 = sb at *
+    have eA : tailSum q dp0 (i + 1) = val q * (B ^ i * dp0.getD i 0) + tailSum q dp0 i := rfl
+    rw [eA]
+    rw [hml] at t2 t4
+    have hm' := val_lt _ t1
+    rw [t2] at hm'
+    have hAi0 : val q = 0 → val q * (B ^ i * dp0.getD i 0) = 0 := by intro h; rw [h, Nat.zero_mul]
+    generalize val q * (B ^ i * dp0.getD i 0) = Ai at *
+    generalize mem.take i ++ rc.1 ++ sb.1 = mem' at *
+    by_cases hb : sb.2 ≠ 0
+    · rw [if_pos hb]
+      have hb1 : sb.2 = 1 := by omega
+      rw [hb1, Nat.mul_one] at t4
+      by_cases hx : x = 0
+      · rw [if_pos hx]
+        subst hx
+        rw [Nat.mul_zero, Nat.add_zero]
+        constructor
+        · intro h; omega
+        · intro _
+          refine ⟨rfl, ?_⟩
+          rcases Nat.eq_zero_or_pos (val q) with h0 | h0
+          · exfalso
+            have := hAi0 h0
+            omega
+          · exact h0
+      · rw [if_neg hx]
+        obtain ⟨x', rfl⟩ : ∃ x', x = x' + 1 := ⟨x - 1, by omega⟩
+        rw [Nat.add_sub_cancel]
+        obtain ⟨ih1, ih2⟩ := ih mem' x' (by omega) t1 t2
+        have e : B ^ M * (x' + 1) = B ^ M * x' + B ^ M := by ring
+        rw [e]
+        constructor
+        · intro h; exact ih1 (by omega)
+        · intro h; exact ih2 (by omega)
+    · rw [if_neg hb]
+      have hb0 : sb.2 = 0 := by omega
+      rw [hb0, Nat.mul_zero, Nat.add_zero] at t4
+      obtain ⟨ih1, ih2⟩ := ih mem' x (by omega) t1 t2
+      constructor
+      · intro h; exact ih1 (by omega)
+      · intro h; exact ih2 (by omega)
+
+theorem decr_quot (q : List Nat) (hq : Limbs q) (hql : 0 < q.length) :
+    Limbs (sub_1 q 1).1 ∧ (sub_1 q 1).1.length = q.length ∧ (sub_1 q 1).2 ≤ 1 ∧
+    val (sub_1 q 1).1 + 1 = val q + B ^ q.length * (sub_1 q 1).2 ∧ (0 < val q → (sub_1 q 1).2 = 0) := by
+  obtain ⟨s1, s2, s3, s4⟩ := sub_1_val q 1 hq hql (by simp only [B_eq]; omega)
+  refine ⟨s3, s4, s2, s1, ?_⟩
+  intro hpos
+  have hlt := val_lt _ s3
+  rw [s4] at hlt
+  rcases Nat.eq_zero_or_pos (sub_1 q 1).2 with h | h
+  · exact h
+  · exfalso
+    have : (sub_1 q 1).2 = 1 := by omega
+    rw [this, Nat.mul_one] at s1
+    omega
+
+theorem dqExit1_ok (q : List Nat) (qh : Nat) (hq : Limbs q) (hql : 0 < q.length) (hpos : 0 < val q) :
+    dqExit1 q qh = some ((sub_1 q 1).1, qh) ∧ val (sub_1 q 1).1 + 1 = val q := by
+  obtain ⟨_, _, _, h4, h5⟩ := decr_quot q hq hql
+  have h0 := h5 hpos
+  unfold dqExit1
+  simp only [h0, ne_eq, not_true_eq_false, if_false]
+  rw [h0, Nat.mul_zero, Nat.add_zero] at h4
+  exact ⟨trivial, h4⟩
+
 end Mpir.SbDivQ
